@@ -44,10 +44,18 @@ def exec_for(ex, st):
         if not broke:
             ex.exec_block(st.orelse)
         return
-    if not isinstance(it, Range):
-        raise Unsupported("iteration over %r @%d" % (it, st.lineno))
     ordinal = loop_ordinal(fr.finfo, st)
     spec = ex.registry.loop_spec(fr.finfo.qualname, ordinal)
+    if isinstance(it, (SymArr, SymList)) and spec is not None:
+        # iteration over the elements of a sequence of symbolic length: a counter loop with target = seq[_i]
+        n = it.shape[0] if isinstance(it, SymArr) else it.length
+        seq = it.snapshot() if isinstance(it, SymArr) else it
+
+        def elem(i):
+            return ex.getitem(seq, i, st.lineno)
+        return invariant_for(ex, st, Range(0, n), spec, ordinal, elem_fn=elem)
+    if not isinstance(it, Range):
+        raise Unsupported("iteration over %r @%d" % (it, st.lineno))
     if spec is not None:
         return invariant_for(ex, st, it, spec, ordinal)
     return auto_nest(ex, st, it, ordinal)
@@ -250,8 +258,8 @@ def auto_nest(ex, st, first_range, ordinal):
             if t0 is None:
                 new_terms.append(None)
                 continue
-            body_val = z3.Select(z3.substitute(t_end, *sub), *xs)
-            new_terms.append(z3.Lambda(xs, z3.If(box, body_val, z3.Select(t0, *xs))))
+            body_val = V.select(z3.substitute(t_end, *sub), xs)
+            new_terms.append(V.canon_lambda(xs, z3.If(box, body_val, V.select(t0, xs))))
         for (g, s), t in zip(_slots(r), new_terms):
             if t is not None:
                 s(t)
@@ -265,7 +273,7 @@ def auto_nest(ex, st, first_range, ordinal):
             dt = "real" if V.sort_of(c) == "real" else "int"
             t = V.z3real(c) if dt == "real" else V.z3int(c)
             t = z3.substitute(t, *(list(sub_mid) + [(v, V.z3int(rng_.lo) + k)]))
-            comps.append(z3.Lambda([k], t))
+            comps.append(V.canon_lambda([k], t))
             dts.append(dt)
         n = V.ite(compare("<", rng_.hi, rng_.lo), 0, arith("-", rng_.hi, rng_.lo))
         sl = SymList(n, len(comps) if isinstance(elem, (tuple, list)) else None, dts, comps=comps)
@@ -513,7 +521,7 @@ def _havoc_value(ex, cur, name):
     return Poison("havocked non-scalar %s" % name)
 
 
-def invariant_for(ex, st, rng, spec, ordinal):
+def invariant_for(ex, st, rng, spec, ordinal, elem_fn=None):
     from . import spec as S
     if ex.undo is not None or ex.probe:
         raise MergeAbort("invariant loop inside speculative execution")
@@ -526,8 +534,14 @@ def invariant_for(ex, st, rng, spec, ordinal):
     entry = S.snapshot_env(env)
     tag = "%s#%d" % (fr.finfo.name, ordinal)
 
+    def bind(i):
+        if elem_fn is None:
+            env[tname] = i
+        else:
+            env[tname] = Poison("loop element outside the body")
+
     def inv_at(i):
-        env[tname] = i
+        bind(i)
         return [S.eval_clause(ex, c, extra={"_i": i, "_lo": lo, "_hi": hi}, entry=entry) for c in spec["inv"]]
 
     for k, f in enumerate(inv_at(lo)):
@@ -535,7 +549,7 @@ def invariant_for(ex, st, rng, spec, ordinal):
     mods = modified_targets(ex, st.body, spec.get("modifies", ()))
     mods = [m for m in mods if not (m[0] == "name" and m[1] == tname)]
     havoc(ex, mods)
-    i = fresh(tname, z3.IntSort())
+    i = fresh("it", z3.IntSort())
     ex.assume(compare("<=", lo, i))
     for f in inv_at(i):
         ex.assume(f)
@@ -551,14 +565,23 @@ def invariant_for(ex, st, rng, spec, ordinal):
             ex.exec_block(st.orelse)
         return
     ex.assume(compare("<", i, hi))
-    env[tname] = i
+    env[tname] = i if elem_fn is None else elem_fn(i)
+    pre = S.snapshot_env(env)
+    for u in spec.get("use_pre", ()):
+        S.use_lemma(ex, u[0], u[1], extra={"_i": i}, entry=entry, pre=pre)
     try:
         ex.exec_block(st.body)
     except ContinueSignal:
         pass
     except BreakSignal:
         return
-    for k, f in enumerate(inv_at(arith("+", i, 1))):
+    for u in spec.get("use_post", ()):
+        S.use_lemma(ex, u[0], u[1], extra={"_i": i}, entry=entry, pre=pre)
+    nxt = arith("+", i, 1)
+    bind(nxt)
+    goals = [S.eval_clause(ex, c, extra={"_i": nxt, "_lo": lo, "_hi": hi}, entry=entry, pre=pre)
+             for c in spec["inv"]]
+    for k, f in enumerate(goals):
         ex.oblige("loop-inv-preserved:%s:%d" % (tag, k), f, "loop-invariant", st.lineno)
     raise PathEnd()
 
